@@ -828,6 +828,45 @@ def merge (less : α → α → Bool) : List α → List α → List α
     if less y x then y :: merge less (x :: l) r else x :: merge less l (y :: r)
 termination_by l r => l.length + r.length
 
+/-! ### `Array.prototype.pop` (builtin_array.go:117 generic, :130 fast path on `*arrayObject`) -/
+
+/-- builtin_array.go:130–160: the fast path. `none` = "optimisation bail-out" to the generic path
+(last slot empty or a `*valueProperty`). `decr` distinguishes the code as it is (`false`: `objCount`
+is not decremented) from the patched code (`true`, fixes/C07-pop-fastpath-objCount.diff). -/
+def Dense.popFast (a : Dense) (decr : Bool) : Option (Dense × Bool) :=
+  if a.length > 0 then
+    let l := a.length - 1
+    match a.slot l with
+    | some (.plain _) =>
+      let a1 : Dense := { a with values := a.values.take l, objCount := if decr then a.objCount - 1 else a.objCount }
+      if a.lenW then some ({ a1 with length := l }, true)
+      else some (a1, false)                      -- `a.setLength(0, true)` throws: length not writable
+    | _ => none
+  else
+    if a.lenW then some (a, true) else some (a, false)
+
+/-- builtin_array.go:117 `arrayproto_pop_generic`, on the mechanism. -/
+def Store.popGeneric (s : Store) : Store × Bool :=
+  if s.length = 0 then s.setLength 0
+  else
+    let d := s.deleteIdx (s.length - 1)
+    if !d.2 then d else d.1.setLength (s.length - 1)
+
+def Store.pop (s : Store) (decr : Bool) : Store × Bool :=
+  match s with
+  | .dense a =>
+    match a.popFast decr with
+    | some r => (.dense r.1, r.2)
+    | none => s.popGeneric
+  | .sparse _ => s.popGeneric
+
+/-- ECMA-262 23.1.3.22 Array.prototype.pop on the spec array (result value not modelled). -/
+def SpecArray.pop (a : SpecArray) : SpecArray × Bool :=
+  if a.length = 0 then a.setLength 0
+  else
+    let d := a.delete (a.length - 1)
+    if !d.2 then d else d.1.setLength (a.length - 1)
+
 /-! ### sort under an adversarial comparator
 
 After 88d0e7d `arrayproto_sort` sorts a private copy; the comparator is user code that may do
